@@ -213,6 +213,10 @@ func (w *fw) rel(typ, target string, external bool) string {
 		// the target spelt as an absolute part name: legal in OPC, written by several producers
 		target = "/word/" + target
 		w.feature("absolute-relationship-target:" + typ)
+	} else if !external && !w.opts.Simple && !strings.HasPrefix(target, "../") && !strings.HasPrefix(target, "/") && w.r.Chance(1, 8) {
+		// the target spelt with dot segments: a legal relative reference to the same part
+		target = []string{"./" + target, "../word/" + target, "x/../" + target}[w.r.Intn(3)]
+		w.feature("dot-segments-in-relationship-target:" + typ)
 	}
 	w.docRels = append(w.docRels, fmt.Sprintf(`<Relationship Id="%s" Type="%s%s" Target="%s"%s/>`, id, relT, typ, esc(target), mode))
 	return id
